@@ -484,6 +484,9 @@ def Pool.reset (gapFix : Bool) (s : Pool) (v : View) (oldNum newNum : Nat) (reor
   let s := s.syncNonces
   s.promoteExecutables none o.slots2 o.qorder2
 
+/-- pool.local(): what `journal.rotate` writes — the pending and queued transactions of every local account -/
+def Pool.localTxs (s : Pool) : List Tx := s.locals.flatMap (fun a => (s.pending a).items ++ (s.queue a).items)
+
 /-- the eviction tick of the pool loop for one inactive non-local account -/
 def Pool.evictIdle (s : Pool) (a : Addr) : Pool :=
   if s.isLocal a then s else s.dropQueued a (s.queue a).items
